@@ -124,6 +124,200 @@ theorem C20_seq_strict (M m p t M' m' p' t' : Nat)
 /-- outside that range the order can break: minor = 256 collides with the next major -/
 theorem C20_seq_needs_range : seqNum 1 256 0 0 = seqNum 2 0 0 0 := by decide
 
+/-! ### the supported grammar is parsed to the draft's integer list -/
+
+
+def natText (n : Nat) : List Char := Nat.toDigits 10 n
+
+def joinWith (sep : Char) : List (List Char) → List Char
+  | [] => []
+  | [s] => s
+  | s :: t :: rest => s ++ sep :: joinWith sep (t :: rest)
+
+def preSegs : Option (Label × Option Nat) → List (List Char)
+  | none => []
+  | some (l, none) => [l.text]
+  | some (l, some n) => [l.text, natText n]
+
+/-- the text of a version of the supported grammar: `N(.N)*[-(alpha|beta|rc)[.N]]` -/
+def render (v : Ver) : List Char :=
+  joinWith '.' (v.nums.map natText) ++
+    (match v.pre with
+     | none => []
+     | some (l, none) => '-' :: l.text
+     | some (l, some n) => '-' :: (l.text ++ '.' :: natText n))
+
+theorem natText_digit (n : Nat) (c : Char) (h : c ∈ natText n) : isDigit c = true := by
+  have := Nat.isDigit_of_mem_toDigits (b := 10) (by decide) (by decide) h
+  simpa [isDigit, Char.isDigit, Char.le_def] using this
+
+theorem splitOn_ne_nil (sep : Char) (s : List Char) : splitOn sep s ≠ [] := by
+  induction s with
+  | nil => simp [splitOn]
+  | cons c rest ih =>
+    unfold splitOn
+    split
+    · simp
+    · split
+      · simp
+      · simp
+
+theorem splitOn_clean (sep : Char) (s : List Char) (h : sep ∉ s) : splitOn sep s = [s] := by
+  induction s with
+  | nil => simp [splitOn]
+  | cons c rest ih =>
+    simp only [List.mem_cons, not_or] at h
+    have hc : ¬ (c = sep) := fun e => h.1 e.symm
+    simp [splitOn, hc, ih h.2]
+
+theorem splitOn_append (sep : Char) (s t : List Char) (h : sep ∉ s) :
+    splitOn sep (s ++ sep :: t) = s :: splitOn sep t := by
+  induction s with
+  | nil => simp [splitOn]
+  | cons c rest ih =>
+    simp only [List.mem_cons, not_or] at h
+    have hc : ¬ (c = sep) := fun e => h.1 e.symm
+    simp [splitOn, hc, ih h.2]
+
+theorem splitOn_join (sep : Char) (segs : List (List Char)) (hne : segs ≠ []) (h : ∀ s ∈ segs, sep ∉ s) :
+    splitOn sep (joinWith sep segs) = segs := by
+  induction segs with
+  | nil => exact absurd rfl hne
+  | cons s rest ih =>
+    cases rest with
+    | nil => simpa [joinWith] using splitOn_clean sep s (h s (by simp))
+    | cons t rest =>
+      simp only [joinWith]
+      rw [splitOn_append sep s _ (h s (by simp)), ih (by simp) (fun x hx => h x (by simp [hx]))]
+
+
+theorem joinWith_append (sep : Char) (a b : List (List Char)) (ha : a ≠ []) (hb : b ≠ []) :
+    joinWith sep (a ++ b) = joinWith sep a ++ sep :: joinWith sep b := by
+  induction a with
+  | nil => exact absurd rfl ha
+  | cons s rest ih =>
+    cases rest with
+    | nil =>
+      cases b with
+      | nil => exact absurd rfl hb
+      | cons t r => simp [joinWith]
+    | cons t r =>
+      have := ih (by simp)
+      simp only [List.cons_append] at this ⊢
+      simp [joinWith, this]
+
+theorem replaceChar_clean (a b : Char) (s : List Char) (h : a ∉ s) : replaceChar a b s = s := by
+  induction s with
+  | nil => rfl
+  | cons c rest ih =>
+    simp only [List.mem_cons, not_or] at h
+    have hc : ¬ (c = a) := fun e => h.1 e.symm
+    simp only [replaceChar, List.map_cons, hc, if_false] at ih ⊢
+    rw [ih h.2]
+
+theorem replaceChar_append (a b : Char) (s t : List Char) : replaceChar a b (s ++ t) = replaceChar a b s ++ replaceChar a b t := by
+  simp [replaceChar]
+
+theorem natText_no (n : Nat) (c : Char) (hc : isDigit c = false) : c ∉ natText n := by
+  intro h; have := natText_digit n c h; simp [hc] at this
+
+theorem join_no (c : Char) (hc : isDigit c = false) (hd : c ≠ '.') (ns : List Nat) : c ∉ joinWith '.' (ns.map natText) := by
+  induction ns with
+  | nil => simp [joinWith]
+  | cons n rest ih =>
+    cases rest with
+    | nil => simpa [joinWith] using natText_no n c hc
+    | cons m r =>
+      simp only [List.map_cons, joinWith, List.mem_append, List.mem_cons, not_or] at ih ⊢
+      exact ⟨natText_no n c hc, hd, ih⟩
+
+theorem label_no_dash (l : Label) : '-' ∉ l.text := by cases l <;> decide
+theorem label_no_dot (l : Label) : '.' ∉ l.text := by cases l <;> decide
+
+theorem render_dots (v : Ver) (hne : v.nums ≠ []) :
+    replaceChar '-' '.' (render v) = joinWith '.' (v.nums.map natText ++ preSegs v.pre) := by
+  have hn : '-' ∉ joinWith '.' (v.nums.map natText) := join_no '-' (by decide) (by decide) _
+  have hm : v.nums.map natText ≠ [] := by simpa using hne
+  unfold render
+  rcases v.pre with _ | ⟨l, _ | n⟩
+  · simp [preSegs, replaceChar_clean _ _ _ hn]
+  · rw [replaceChar_append, replaceChar_clean _ _ _ hn, joinWith_append _ _ _ hm (by simp [preSegs])]
+    simp [preSegs, joinWith, replaceChar, replaceChar_clean _ _ _ (label_no_dash l)]
+    have := replaceChar_clean '-' '.' _ (label_no_dash l)
+    simpa [replaceChar] using this
+  · rw [replaceChar_append, replaceChar_clean _ _ _ hn, joinWith_append _ _ _ hm (by simp [preSegs])]
+    have h1 := replaceChar_clean '-' '.' _ (label_no_dash l)
+    have h2 := replaceChar_clean '-' '.' _ (natText_no n '-' (by decide))
+    simp only [replaceChar] at h1 h2
+    simp [preSegs, joinWith, replaceChar, h1, h2]
+
+theorem digitsToNat_eq (s : List Char) : digitsToNat s = Nat.ofDigitChars 10 s 0 := by
+  unfold digitsToNat Nat.ofDigitChars
+  congr 1; funext acc c; simp [Nat.mul_comm]
+
+theorem convertPart_nat (n : Nat) : convertPart (natText n) = some (n : Int) := by
+  have h1 : isNumeric (natText n) = true := by
+    simp only [isNumeric, Bool.and_eq_true, Bool.not_eq_true', List.all_eq_true]
+    refine ⟨?_, fun c hc => natText_digit n c hc⟩
+    have := Nat.toDigits_ne_nil (n := n) (b := 10)
+    cases h : natText n with
+    | nil => exact absurd h this
+    | cons _ _ => rfl
+  unfold convertPart
+  rw [if_pos h1]
+  simp [digitsToNat_eq, natText]
+
+theorem convertPart_label (l : Label) : convertPart l.text = some l.code := by cases l <;> decide
+
+theorem allSome_map_some {α β} (f : α → Option β) (g : α → β) (l : List α) (h : ∀ x ∈ l, f x = some (g x)) :
+    allSome (l.map f) = some (l.map g) := by
+  induction l with
+  | nil => rfl
+  | cons x xs ih =>
+    simp [allSome, h x (by simp), ih (fun y hy => h y (by simp [hy]))]
+
+theorem allSome_append {α} (a b : List (Option α)) (x y : List α) (ha : allSome a = some x) (hb : allSome b = some y) :
+    allSome (a ++ b) = some (x ++ y) := by
+  induction a generalizing x with
+  | nil => simp [allSome] at ha; subst ha; simpa using hb
+  | cons o rest ih =>
+    cases o with
+    | none => simp [allSome] at ha
+    | some v =>
+      simp only [allSome, Option.map_eq_some_iff] at ha
+      obtain ⟨r, hr, rfl⟩ := ha
+      simp [allSome, ih r hr]
+
+/-- **Parsing the supported grammar.** Every version of the grammar `N(.N)*[-(alpha|beta|rc)[.N]]`, with unbounded
+numbers, is accepted and read as the integer list the draft assigns to it. -/
+theorem C20_parse_render (v : Ver) (hne : v.nums ≠ []) : parseVersion (render v) = some (conv v) := by
+  obtain ⟨nums, pre⟩ := v
+  simp only at hne
+  unfold parseVersion
+  rw [render_dots _ hne, splitOn_join]
+  · rw [List.map_append, conv_eq]
+    apply allSome_append
+    · rw [List.map_map]
+      exact allSome_map_some _ _ _ (fun n _ => convertPart_nat n)
+    · rcases pre with _ | ⟨l, _ | n⟩
+      · rfl
+      · simp [preSegs, preList, allSome, convertPart_label]
+      · simp [preSegs, preList, allSome, convertPart_label, convertPart_nat]
+  · simp [hne]
+  · intro s hs
+    simp only [List.mem_append, List.mem_map] at hs
+    rcases hs with ⟨n, _, rfl⟩ | hs
+    · exact natText_no n '.' (by decide)
+    · rcases pre with _ | ⟨l, _ | n⟩
+      · simp [preSegs] at hs
+      · simp only [preSegs, List.mem_singleton] at hs; subst hs; exact label_no_dot l
+      · simp only [preSegs, List.mem_cons, List.not_mem_nil, or_false] at hs
+        rcases hs with rfl | rfl
+        · exact label_no_dot l
+        · exact natText_no n '.' (by decide)
+
+example : render ⟨[1, 20, 3], some (.rc, some 4)⟩ = "1.20.3-rc.4".toList := by decide
+
 example : parseVersion "1.2.3-rc.4".toList = some [1, 2, 3, -1, 4] := by decide
 example : parseVersion "1.2.3-gamma".toList = none := by decide
 example : defaultVersion "1".toList "2".toList "3".toList (some "rc1".toList) = "1.2.3-rc.1".toList := by decide
